@@ -230,11 +230,26 @@ def cvc5_check(smt2, timeout_ms):
             pass
 
 
+def case_value(c, case_id):
+    """cases: the quick family; cases_thorough: further members explored only by the thorough tier"""
+    extra = getattr(c, "cases_thorough", None) or {}
+    if isinstance(c.cases, dict):
+        return c.cases[case_id] if case_id in c.cases else extra[case_id]
+    return case_id
+
+
+def case_ids(c, tier):
+    ids = list(c.cases)
+    if tier == "thorough":
+        ids += [k for k in (getattr(c, "cases_thorough", None) or {}) if k not in c.cases]
+    return ids
+
+
 def run_case(cid, case_id, tier="quick", known_regions=None, seed=0):
     """Explore all paths of one contract case, discharge every clause on every path."""
     t_start = time.time()
     c = REGISTRY[cid]
-    case = c.cases[case_id] if isinstance(c.cases, dict) else case_id
+    case = case_value(c, case_id)
     timeout = 20000 if tier == "quick" else 90000
     budget_s = getattr(c, "budget_s", 300 if tier == "quick" else 1800)
     both = tier == "thorough"
@@ -409,7 +424,7 @@ class _TimeLimit:
 def run_conc(cid, case_id, oracle, seed=0):
     """Engine in concrete mode. -> dict(outcome, clauses{name: bool}, oracle)"""
     c = REGISTRY[cid]
-    case = c.cases[case_id] if isinstance(c.cases, dict) else case_id
+    case = case_value(c, case_id)
     ctx = Ctx("conc", oracle=dict(oracle or {}), rng=random.Random(seed))
     with _TimeLimit(30):
         s = run_once(c, case, ctx)
@@ -430,7 +445,7 @@ def run_conc(cid, case_id, oracle, seed=0):
 def run_native(cid, case_id, oracle):
     """Real code under CPython with the same pre-state. -> outcome dict"""
     c = REGISTRY[cid]
-    case = c.cases[case_id] if isinstance(c.cases, dict) else case_id
+    case = case_value(c, case_id)
     get_loader()
     w = Wd.NativeWorld(dict(oracle))
     call = c.setup(w, case)
